@@ -2262,6 +2262,11 @@ async fn handle_packet(
     if should_drop_packet() {
         return;
     }
+    if packet.is_empty() {
+        // TURN can relay zero bytes (Data indication with an empty DATA attribute,
+        // ChannelData of length 0); there is nothing to classify.
+        return;
+    }
     inner.last_received_nanos.store(
         inner.created_at.elapsed().as_nanos() as u64,
         Ordering::Relaxed,
